@@ -21,6 +21,9 @@ CHECKS = {
  "C20": ("Typestate and all-paths accounting over every exported method of packet.Writer and packet.Reader (97 SSA paths, helpers inlined): sticky-error discipline (a path entered with the error set performs no buffer operation, no counter update, no second error assignment and returns zero values; every buffer operation happens after the error field was tested nil on that path), byte accounting as linear forms (octets appended == increment of `written` on error-free paths, 0 on error paths), every error/short-count result of a library call is branched on, terminals return (nil, err) or a fresh copy, and shape rules for the inverse pairs (C-string delimiter, fixed slot = s ++ zeros(n-len(s)) refused iff len(s)>n, trimming read cuts at the first zero under idx>=0, integer widths and byte-order object agree). Universally quantified over operation arguments because the accounting is symbolic; sequences of operations follow by induction over the sticky-error invariant.",
          "Trusted: contracts of bytebufferpool.ByteBuffer (Write/WriteString append len(arg)), bytes.Buffer.Read/ReadString, encoding/binary.Read/Write (size by static type; data unchanged on failure), make zero-fills. Not decided: concrete octet values beyond the shape rules.",
          "exhaustive SSA path enumeration with helper inlining + symbolic (linear-form) byte accounting + shape pattern rules", "DESIGN.md section 2 C20"),
+ "C03": ("Obligations over the decode-reachable call graph (118 roots, 130 module functions via VTA): every panic-capable SSA site (384 today: index, slice, make, divide, type assertion, explicit panic, binary.UintN/PutUintN length preconditions) is discharged by a purpose-built sound linear-inequality prover (dominating branch conditions incl. &&/|| lowering, len/append/make/slice definitions, store-to-load forwarding for non-escaping locations, strings.Index/bytes.IndexByte contracts, monotone-phi, invariant-sum and length-difference loop lemmas, goal splitting over merge edges); every natural loop in scope must match a termination template (ranking function proved at each back edge, iterator loop, or reader-progress loop); every allocation size must be constant, a linear form over lengths of existing data, a <=16-bit wire value, or provably bounded by the remaining input (followed into callers); every decoder return after the first read yields the reader's sticky error, and the reader's own paths test every library error/short count (imported from the C20 analysis). Undischarged = reported. This is a static over-approximation of 'never panics / hangs / over-allocates', hence level 'other' (sound w.r.t. the enumerated site kinds, incomplete).",
+         "Trusted: Go run-time panic conditions for the enumerated site kinds; contracts of strings.Index/bytes.IndexByte/append/make; code inside dependencies (x/text, fmt.Sscanf, bytes.Buffer) is not analysed; nil dereference and nil-map writes are not enumerated (no decode path builds pointers or maps from input other than via make). Known findings: the blocking extractors allocate the announced 32-bit frame length.",
+         "call-graph scoped obligation enumeration on SSA + purpose-built linear-inequality prover + loop-termination templates + allocation-size dataflow", "DESIGN.md section 2 C03"),
 }
 
 def main():
